@@ -33,6 +33,32 @@ Theorem C40_invariant : forall (m : smode) (st0 : pstore) (todo : list entry) (l
 Proof. intros m st0 todo ls HL. apply sys_run_inv; [apply start_inv|exact HL]. Qed.
 Print Assumptions C40_invariant.
 
+(* SEVERAL RANGES of one GetObject (readers sharing one read transaction, database.WithTxReadClosers): for every schedule of
+   Read(i,n) / Close(i) — drain and close one range after the other, close without draining, never close, close twice —
+   interleaved with arbitrary store changes: every range reader delivers a prefix of ITS range of the resolved version,
+   clean EOF only after all of it, and with a SQL part store (snapshot) a reader that has not been closed never fails:
+   the transaction stays open until every reader has been closed once *)
+Theorem C40_multi_range_full : forall (m : smode) (st0 : pstore) (todos : list (list entry)) (ls : list mlabel),
+  (forall e, In e (concat todos) -> ps_get st0 (e_pid e) <> None) -> mlabels_ok st0 (concat todos) ls ->
+  let s := fst (msys_run (mstart m st0 todos) ls) in
+  (forall i r, nth_error (ms_rds s) i = Some r ->
+     exists todo, nth_error todos i = Some todo /\ (exists t, expected st0 todo = r_out r ++ t) /\
+                  (r_st r = AtEof -> r_out r = expected st0 todo)) /\
+  (m = Snapshot -> forall i r, nth_error (ms_rds s) i = Some r -> nth_error (ms_closed s) i = Some false -> r_st r <> Failed).
+Proof. exact multi_range_full. Qed.
+Print Assumptions C40_multi_range_full.
+
+(* the outbox part store over a tx-free inner store: a part with a PENDING DeletePart entry is invisible (GetPart answers
+   part-not-found although the inner file still exists), everything else is what the inner store holds.  Whatever the
+   inner store and the set of pending deletes are, the visible store satisfies env_ok as soon as the inner store does —
+   so C40_prefix_or_error / C40_multi_range_full (mode TxFree) apply with the visible store as environment: the next
+   part's read fails, it never ends the body early *)
+Theorem C40_outbox_pending_delete_invisible : forall st0 todo inner pending pid,
+  ps_get (ob_visible inner pending) pid = (if existsb (N.eqb pid) pending then None else ps_get inner pid) /\
+  (env_ok st0 todo inner -> env_ok st0 todo (ob_visible inner pending)).
+Proof. intros. split; [apply ob_visible_get|apply ob_env_ok]. Qed.
+Print Assumptions C40_outbox_pending_delete_invisible.
+
 (* why the premise "the stored part has (at least) its recorded size" (C15) matters for the declared length: a part file
    shorter than its recorded size ends cleanly early and the next part follows — the body is complete w.r.t. the bytes
    that exist, but shorter than the size announced in the metadata *)
@@ -59,3 +85,10 @@ Example C40_ex_fs_gc_of_one_part :
 Proof. vm_compute. reflexivity. Qed.
 Example C40_ex_env_ok : env_ok [(1%N, B"AA"); (2%N, B"BB")] [{| e_pid := 1; e_skip := 0; e_limit := 2 |}] [(2%N, B"BB"); (3%N, B"CC")].
 Proof. intros e [<-|[]]. right. reflexivity. Qed.
+Example C40_ex_multi_sql :
+  run_line B"sql 0 41414141,42424242,43434343 M 0-6;6-12 r0.64,r0.64,c0,o,c0,r1.3,d,r1.64,r1.64,c1" =
+  B"41414141 4242 4242 43434343 EOF t0:414141414242 t1:424243434343".
+Proof. vm_compute. reflexivity. Qed.
+Example C40_ex_outbox_pending_delete :
+  run_line B"ob 0 41414141,42424242,43434343 M 0-12 r0.5,o,r0.5,w,r0.5" = B"41414141 ERR ERR t0:41414141".
+Proof. vm_compute. reflexivity. Qed.
